@@ -94,9 +94,17 @@ instance : (shape r : List Nat) → Decidable (inShape shape r)
   | [], _ :: _ => isFalse fun h => h
   | _ :: _, [] => isFalse fun h => h
 
+/-- Source positions (counted from `k`) of the axes that survive, in result order: entry `j`
+is the source axis that result axis `j` is a view of. -/
+def keptFrom (k : Nat) : List AxisRes → List Nat
+  | [] => []
+  | a :: as => if a.isKept then k :: keptFrom (k + 1) as else keptFrom (k + 1) as
+
 /-- Positions (in array order) of the axes that survive. -/
-def keptAxes (axes : List AxisRes) : List Nat :=
-  (List.range axes.length).filter fun i => (axes.getD i (.dropped 0)).isKept
+def keptAxes (axes : List AxisRes) : List Nat := keptFrom 0 axes
+
+/-- Number of integer items. -/
+def countInts (its : List Item) : Nat := (its.filter Item.isInt).length
 
 def numDropped (axes : List AxisRes) : Nat := (axes.filter (fun a => !a.isKept)).length
 
